@@ -151,6 +151,16 @@ func (seg *Segment) IsAmbiguous(s2 *Segment) bool {
 		(seg.Endpoint == s2.Endpoint && seg.Type == s2.Type && seg.rule == s2.rule && seg.Suffix == s2.Suffix)
 }
 
+// IsAmbiguousPrefix 判断 seg 是否为 s2 除名称之外的前缀
+//
+// 参数节点被拆分之后，其上半部分只保留了后缀的一部分，比如 {id}/author 和 {id}/avatar 拆分为 {id}/a，
+// 此时 {uid}/author 与之仅名称不同，剩余部分需要由其子节点继续判断。
+func (seg *Segment) IsAmbiguousPrefix(s2 *Segment) bool {
+	return seg.Type != String && seg.Type == s2.Type && seg.rule == s2.rule &&
+		(seg.Name != s2.Name || seg.ignoreName != s2.ignoreName) &&
+		len(seg.Suffix) < len(s2.Suffix) && strings.HasPrefix(s2.Suffix, seg.Suffix)
+}
+
 func (seg *Segment) AmbiguousLen() int16 {
 	return seg.ambiguousLength + int16(len(seg.Name))
 }
